@@ -32,18 +32,48 @@ func rulePendingFlushed(names ...string) func(p *Prog, l *Ledger, tier string) {
 					if !ok {
 						break
 					}
-					if _, isPtr := ph.Type().Underlying().(*types.Pointer); !isPtr {
+					_, isPtr := ph.Type().Underlying().(*types.Pointer)
+					isStr := isStringT(ph.Type())
+					if !isPtr && !isStr {
 						continue
 					}
-					// replaced by a fresh object inside the loop?
+					// replaced by a fresh object inside the loop? (a new allocation; for a pending string, a
+					// substring cut out in this trip, the variable starting empty)
 					fresh := false
+					var walkEdge func(e ssa.Value, seen map[ssa.Value]bool)
+					walkEdge = func(e ssa.Value, seen map[ssa.Value]bool) {
+						if seen[e] {
+							return
+						}
+						seen[e] = true
+						switch x := e.(type) {
+						case *ssa.Alloc:
+							if isPtr && li.blocks[x.Block()] {
+								fresh = true
+							}
+						case *ssa.Slice:
+							if isStr && li.blocks[x.Block()] {
+								fresh = true
+							}
+						case *ssa.Phi:
+							if x != ph {
+								for _, e2 := range x.Edges {
+									walkEdge(e2, seen)
+								}
+							}
+						}
+					}
 					for i, e := range ph.Edges {
 						if !li.blocks[li.header.Preds[i]] {
+							if isStr {
+								if s0, ok := constStr(e); !ok || s0 != "" {
+									fresh = false
+									break
+								}
+							}
 							continue
 						}
-						if al, ok := e.(*ssa.Alloc); ok && li.blocks[al.Block()] {
-							fresh = true
-						}
+						walkEdge(e, map[ssa.Value]bool{})
 					}
 					if !fresh {
 						continue
@@ -109,7 +139,7 @@ func pendingFreeCycle(li *loopInfo, ph *ssa.Phi, useBlock map[*ssa.BasicBlock]bo
 		if li.blocks[li.header.Preds[i]] {
 			continue
 		}
-		if c, ok := e.(*ssa.Const); !ok || !c.IsNil() {
+		if c, ok := e.(*ssa.Const); !ok || !(c.IsNil() || (c.Value != nil && c.Value.ExactString() == `""`)) {
 			initNil = false
 		}
 	}
